@@ -169,8 +169,11 @@ def z_factor_hallyarbrough(pressure: float, temperature: float) -> float:
         )
         y_new = y - fdum / dfdy
         # keep the reduced density inside (0, 1): an overshooting Newton step would put a
-        # negative base under a fractional power (NaN) and silently end the loop
-        if y_new >= 1:
+        # negative base under a fractional power (NaN) and silently end the loop.  Going
+        # up, never move more than half-way to 1: a step that lands on the last float
+        # below 1 leaves a correction smaller than the spacing of floats there, and the
+        # iteration would then never move again
+        if y_new > (y + 1) / 2:
             y_new = (y + 1) / 2
         elif y_new <= 0:
             y_new = y / 2
